@@ -646,6 +646,9 @@ func Run(prop string, legacy bool) {
 		"unlocking_scripts_shared": r.share.SharedUnlock, "locking_scripts_shared": r.share.SharedLock,
 		"previous_script_pointer_is_the_originals": r.share.PrevScriptSame, "previous_script_pointer_new": r.share.PrevScriptNew,
 	}
+	for _, f := range Extra[prop] { // per-property families (hooks.go)
+		f(r, rnd)
+	}
 	c.Finish()
 }
 
